@@ -24,8 +24,47 @@ Record pastate := mkPS { ps_et : Z; ps_salt : bytes; ps_params : bytes; ps_id : 
 
 Definition known_etype (et : Z) : bool := match et_family et with Some _ => true | None => false end.
 
-(* one iteration of the loop over the PA-data sequence *)
+(* one iteration of the loop over the PA-data sequence (repaired code, /repo eb1c1ad: a hint's etype is compared
+   with the etype currently selected: when they differ the hint's etype is looked up and selected, when they are equal
+   it already is the selected one - either way the selected etype becomes the hint's; /repo d829d93: when
+   the etype changes the default string-to-key parameters become those of the new etype) *)
 Definition pa_step (req : Z) (s : pastate) (h : hint) : res pastate :=
+  match h with
+  | HSalt salt =>
+    if 3 <? ps_id s then Ok s else Ok (mkPS (ps_et s) salt (ps_params s) 3)
+  | HInfo es =>
+    if 11 <? ps_id s then Ok s else
+    match es with
+    | [] => Ok s
+    | (e0, s0) :: _ =>
+      if negb (ps_et s =? e0) && negb (known_etype e0) then Err 60
+      else Ok (mkPS e0 s0 (if ps_et s =? e0 then ps_params s else default_s2kparams e0) 11)
+    end
+  | HInfo2 es =>
+    if 19 <? ps_id s then Ok s else
+    match es with
+    | [] => Ok s
+    | (e0, s0, p0) :: _ =>
+      if negb (ps_et s =? e0) && negb (known_etype e0) then Err 60
+      else
+        let dflt := if ps_et s =? e0 then ps_params s else default_s2kparams e0 in
+        let params := match p0 with
+                      | Some p => if (length p =? 4)%nat then hex_of_bytes p else dflt
+                      | None => dflt end in
+        Ok (mkPS e0 s0 params 19)
+    end
+  | HOther _ => Ok s
+  end.
+
+Fixpoint pa_fold (req : Z) (s : pastate) (hs : list hint) : res pastate :=
+  match hs with
+  | [] => Ok s
+  | h :: r => match pa_step req s h with Ok s' => pa_fold req s' r | Err c => Err c | Panic p => Panic p end
+  end.
+
+(* the code as pinned compared with the REQUESTED etype: an ETYPE-INFO naming another etype switched the selection and
+   a following ETYPE-INFO2 naming the requested etype did not switch it back *)
+Definition pa_step_pinned (req : Z) (s : pastate) (h : hint) : res pastate :=
   match h with
   | HSalt salt =>
     if 3 <? ps_id s then Ok s else Ok (mkPS (ps_et s) salt (ps_params s) 3)
@@ -51,13 +90,11 @@ Definition pa_step (req : Z) (s : pastate) (h : hint) : res pastate :=
     end
   | HOther _ => Ok s
   end.
-
-Fixpoint pa_fold (req : Z) (s : pastate) (hs : list hint) : res pastate :=
+Fixpoint pa_fold_pinned (req : Z) (s : pastate) (hs : list hint) : res pastate :=
   match hs with
   | [] => Ok s
-  | h :: r => match pa_step req s h with Ok s' => pa_fold req s' r | Err c => Err c | Panic p => Panic p end
+  | h :: r => match pa_step_pinned req s h with Ok s' => pa_fold_pinned req s' r | Err c => Err c | Panic p => Panic p end
   end.
-
 (* (key value, key type) *)
 Definition key_from_password (pw : bytes) (names : list bytes) (realm : bytes) (req : Z) (hs : list hint)
   : res (bytes * Z) :=
